@@ -181,7 +181,7 @@ class Concretiser:
         toks = pr(e, extra=self.chance(0.15))
         if object_inner and e["k"] == "obj" and self.chance(0.7) is False:
             pass
-        if object_inner and e["k"] == "obj" and (self.plain or self.rnd.random() < 0.6):
+        if object_inner and e["k"] == "obj" and (self.plain or Concretiser.data_form % 4 != 2):
             toks = toks[1:-1]     # `data="{{ a: 1 }}"`: the braces of the binding are the object's
         if object_inner and e["k"] == "id":
             toks = ["("] + toks + [")"]        # `data="{{ o }}"` would be the object literal {o: o}
@@ -233,6 +233,10 @@ class Concretiser:
             q = "'"
         elif not self._has_quote(v, "'") and self.chance(0.25):
             q = "'"
+        if object_inner and not self.plain:
+            Concretiser.data_form += 1        # template data: quoted / unquoted, with / without the object's own braces, in turn
+        if v["t"] == "e" and not v.get("dx") and not self.plain and (Concretiser.data_form % 2 == 1 if object_inner else self.rnd.random() < 0.08):
+            return "%s=%s" % (name, self.value_in_attr(v, '"', object_inner))       # a lone binding may stand without quotes
         return "%s=%s%s%s" % (name, q, self.value_in_attr(v, q, object_inner), q)
 
     def attr(self, a):
@@ -396,6 +400,7 @@ class Concretiser:
 
     pending_dir = None
     garbage_no = 0
+    data_form = 0
 
     def take_dir(self):
         d = self.pending_dir or []
